@@ -44,8 +44,20 @@ def main():
         rc, out = run(["git", "apply", patch], wt)
         res["ran"].append("git apply patch: rc=%d" % rc)
         assert rc == 0, out
-        pkgs = sorted({"./" + os.path.dirname(f) for f in meta["files_touched"]})
-        moddir = wt
+        # nested modules (tlv, ...): run go in the directory of the nearest go.mod
+        def modof(f):
+            d = os.path.dirname(f)
+            while d and not os.path.exists(os.path.join(wt, d, "go.mod")):
+                d = os.path.dirname(d)
+            return d
+        mods = {modof(f) for f in meta["files_touched"]}
+        assert len(mods) == 1, mods
+        sub = mods.pop()
+        moddir = os.path.join(wt, sub) if sub else wt
+        rel = lambda p: os.path.relpath(p, sub) if sub else p
+        pkgs = sorted({"./" + rel(os.path.dirname(f)) for f in meta["files_touched"]})
+        if sub:
+            meta["demo_pkg"] = "./" + rel(os.path.normpath(meta["demo_pkg"]))
         rc, out = run("go build ./...", moddir, 3600)
         res["ran"].append("go build ./...: rc=%d" % rc)
         res["builds"] = rc == 0
@@ -69,7 +81,7 @@ def main():
             res["baseline_tests_broken"] = broke[:10]
         # demonstration
         dpkg = meta["demo_pkg"]
-        dst = os.path.join(wt, dpkg, "zz_seed_%d_test.go" % n)
+        dst = os.path.join(moddir, dpkg, "zz_seed_%d_test.go" % n)
         shutil.copy(demo, dst)
         m = re.search(r"-run\s+(\S+)", meta["demo_run"])
         runpat = m.group(1) if m else "TestSeed"
